@@ -141,7 +141,8 @@ class Check(PropertyCheck):
             if rng.random() < 0.3:
                 lines.append(f"estep {rng.randrange(len(jobs))} -1")     # probably a finished job
             if ep + 1 < episodes or rng.random() < 0.5:
-                lines.append("ereset")
+                # (sometimes only the environment's DISPATCHER is reset - and the next step follows without an observation in between)
+                lines.append("ereset" if rng.random() < 0.75 else "edreset")
         meta.update({"kind": "single", "family": family, "flexible": gen.is_flexible(jobs), "steps": steps,
                      "filter": "none" if f is None else "+".join(f) or "empty", "n_feats": len(feats),
                      "filter_style": rng.choice(["callable", "enum", "str"])})
@@ -209,7 +210,8 @@ class Check(PropertyCheck):
     def check_obs(self, env, single, obs, padded, what):
         """obs: the dict returned by the real env; env: the env whose spaces are declared; single: the current single env"""
         res = []
-        g = single.job_shop_graph
+        # "the current graph" is the one the subscribed graph updater maintains (the environment's own accessor may be a stale alias)
+        g = single.graph_updater.job_shop_graph
         if padded and not env.observation_space.contains(obs):
             detail = []
             for k, sp in env.observation_space.spaces.items():
